@@ -62,11 +62,23 @@ def events(darsia, rng, shapes, quick, arrangements):
             if all(x % f == 0 for x in s):
                 co = darsia.uniform_refinement(img, -lev)
                 ev.append({"tid": f"coarsen:{s}:{lev}", "op": "coarsen", "shape": list(s), "f": f, "data": ints(a), "res": ints(co.img, f ** 2), "dims_kept": dims_kept(img, co)})
-            elif lev == 1:
-                co = darsia.uniform_refinement(img, -1)
-                rel = abs(integral(co) - integral(img)) / max(1e-300, abs(integral(img)))
-                ev.append({"tid": f"coarsen_odd:{s}", "op": "coarsen_odd", "shape": list(s), "intexp": exponent(rel), "dims_kept": dims_kept(img, co),
-                           "constant": int(len(set(a.ravel().tolist())) == 1)})
+            else:
+                # extents that are not multiples of 2^lev, every level: general data (integral) and a constant field, which
+                # has to stay that constant on ceil(n / 2^lev) voxels over the same extent
+                for const in (0, 1):
+                    b = np.full(s, float(rng.randint(1, 5))) if const else a
+                    imgb = image(darsia, b, [0.5, 0.25])
+                    e = {"tid": f"coarsen_odd:{s}:{lev}:{const}", "op": "coarsen_odd", "shape": list(s), "lev": lev, "constant": const, "raised": 0,
+                         "intexp": 3, "dims_kept": 0, "rshape": [], "const_kept": 0}
+                    try:
+                        co = darsia.uniform_refinement(imgb, -lev)
+                        rel = abs(integral(co) - integral(imgb)) / max(1e-300, abs(integral(imgb)))
+                        e.update(intexp=exponent(rel), dims_kept=dims_kept(imgb, co), rshape=list(co.img.shape),
+                                 const_kept=int(bool(np.all(co.img == b.flat[0]))) if const else 1)
+                    except Exception as ex:  # noqa
+                        e["raised"] = 1
+                        e["error"] = repr(ex)[:160]
+                    ev.append(e)
     # a 3-D and a series / vector payload for refinement
     for kind, shp in [("3d", (2, 2, 2)), ("series", (2, 2, 3)), ("vector", (2, 4, 3))]:
         a = rand_arr(rng, shp, "float64")
